@@ -19,7 +19,8 @@ def streams : List (String × Stream) := [
   ("frag", fragStream),
   ("ke", keStream),
   ("hub", hubStream),
-  ("stack", stackStream)
+  ("stack", stackStream),
+  ("replay", replayStream)
 ]
 
 def main (args : List String) : IO UInt32 := do
